@@ -438,6 +438,7 @@ def run(ctx):
             seq = a.value
             seq_name = seq.id if isinstance(seq, ast.Name) else None
             opened = closed = False
+            o_node = c_node = None
             if seq_name:
                 for s2 in au.walk_stmts(init.body):
                     if s2.lineno >= lp.lineno:
@@ -446,14 +447,31 @@ def run(ctx):
                         if isinstance(x, ast.Call) and isinstance(x.func, ast.Attribute) and au.base_name(x.func) == seq_name:
                             txt = au.U(x)
                             if x.func.attr == "insert" and x.args and au.const_num(x.args[0]) == 0 and "start" in txt:
-                                opened = True
+                                opened, o_node = True, x
                             if x.func.attr in ("append", "union") and "end" in txt:
-                                closed = True
+                                closed, c_node = True, x
                             if x.func.attr == "insert" and x.args and au.const_num(x.args[0]) != 0 and len(x.args) > 1 and "end" in au.U(x.args[1]):
-                                closed = True
+                                closed, c_node = True, x
                         if isinstance(x, ast.Call) and au.method_name(x) in ("union", "append", "DatetimeIndex", "concat") and seq_name in au.names_in(x) \
                                 and "start" in au.U(x) and "end" in au.U(x):
                             opened = closed = True
+            if opened and closed and o_node is not None and c_node is not None:
+                # the two repairs are independent of each other: they may not sit in mutually exclusive arms of one `if`
+                def arms(n):
+                    out, child = {}, n
+                    for a0 in p.ancestors(n):
+                        if isinstance(a0, ast.If):
+                            out[id(a0)] = "body" if any(child is b0 for b0 in a0.body) else ("orelse" if any(child is b0 for b0 in a0.orelse) else "test")
+                        child = a0
+                    return out
+                ao, ac = arms(o_node), arms(c_node)
+                excl = [k for k in ao if k in ac and {ao[k], ac[k]} == {"body", "orelse"}]
+                if excl:
+                    ctx.ob("C19.i", init, "coarse boundaries span the window", False,
+                           "the window end is appended (%s) only on the arm on which the window start was not prepended (%s): a window that neither "
+                           "starts nor ends on a boundary of the coarse step (anchored frequency 'W', Friday to Wednesday) loses its last partial "
+                           "interval - the asset has no variables for those fine steps" % (p.where(c_node), p.where(o_node)), node=c_node)
+                    continue
             ctx.ob("C19.i", init, "coarse boundaries span the window", opened and closed,
                    "the coarse intervals are consecutive pairs of %s = date_range(start, end, freq) only; the range stops at the last multiple "
                    "of the coarse step before the end (and, for anchored frequencies such as 'W', starts at the first anchor after the "
